@@ -1,13 +1,14 @@
 """C18 — registry calls always terminate when overlapping deliveries terminate (structural part)."""
 import re
 from .. import cfg
-from ..anchors import halflocks, handler, is_user_code
+from ..anchors import handler, is_user_code
 from ..atomics import sites, recv_field
 from ..effects import Cone, classify, is_leaf
 from ..facts import keyname, AnchorLost
 from ..locks import lockinfo
 from .lockrules import poison_rules, lock_order, lock_short
-from .C01 import Roles, hl_methods, reads_slots, on_field, RG
+from . import hl
+from .hl import Roles, on_field, RG
 from .util import adt_constructions, exactly_once
 
 
@@ -45,51 +46,8 @@ def rule_c(ctx):
     ctx.rule(rid, "readers never wait: the read path of the half lock has no loop and reaches no LOCK/WAIT leaf; the only wait loop of "
                   "the module is on the writer side and loads nothing but the reader slots", floor=4)
     R = Roles(F)
-    for T in halflocks(F):
-        readers = [m for m in hl_methods(F, T) if adt_constructions(m, RG)]
-        for m in readers:
-            ctx.fn(m)
-            cy = cfg.cycles(m)
-            cone = Cone(F, [m])
-            bad = cone.of_class("LOCK", "WAIT", "UNCLASSIFIED")
-            ctx.check(not cy and not bad, rid, "read-path:%s" % T.split("::")[-1], "read() has no loop and reaches no LOCK/WAIT leaf (%d instances)" % len(cone.members),
-                      m.span, {"loops": [sorted(c) for c in cy], "leaves": [(i.name, c) for i, c, n in bad]})
-        # wait loops: cycles containing a WAIT-class call
-        for m in hl_methods(F, T):
-            for comp in cfg.cycles(m):
-                waits = []
-                for b in comp:
-                    t = m.term(b)
-                    if t["k"] == "call" and t.get("f") is not None:
-                        c = F.inst[t["f"]]
-                        wc = Cone(F, [c]).of_class("WAIT")
-                        if wc:
-                            waits.append(b)
-                if not waits:
-                    continue
-                ctx.fn(m)
-                is_reader = bool(adt_constructions(m, RG))
-                # atomic loads inside the loop (own frame + workspace callees called from the loop)
-                loads = []
-                for b in comp:
-                    t = m.term(b)
-                    if t["k"] == "call" and t.get("f") is not None:
-                        c = F.inst[t["f"]]
-                        if c.local and c.body is not None:
-                            for s in sites(F, c):
-                                loads.append((c, s))
-                for s in sites(F, m):
-                    if s.bb in comp:
-                        loads.append((m, s))
-                other = []
-                for (fi, s) in loads:
-                    whole, idx, lds = reads_slots(F, fi, R)
-                    if s.op == "load" and s.aty == "usize" and (whole or idx) and not on_field(s, R.gen):
-                        continue
-                    other.append("%s %s in %s" % (s.op, s.aty, fi.name.split("::")[-1]))
-                ctx.check(not is_reader and not other, rid, "wait-loop:%s@%s" % (T.split("::")[-1], keyname(m.name).split("::")[-1]),
-                          "the wait loop is on the writer side and polls only the reader slots", m.term(min(comp))["sp"],
-                          {"in_read_path": is_reader, "other_atomic_accesses_in_loop": other})
+    for T in hl.lock_types(F):
+        hl.rule_wait_loops(ctx, rid, hl.View(F, R, T))
 
 
 def rule_d(ctx):
@@ -97,15 +55,12 @@ def rule_d(ctx):
     rid = "C18.d"
     ctx.rule(rid, "guard pairing: each reader increment is matched by exactly one decrement of the same counter when the guard drops, and the "
                   "dispatcher drops its guards on every path (so the counters the barrier waits for return to zero)", floor=4)
-    from .C01 import rule_b as c01b, rule_c as c01c, rule_g as c01g
+    from .C01 import rule_g as c01g
     R = Roles(F)
-
-    class Sub:
-        pass
-    # reuse C01's rule bodies under this rule id
-    for T in halflocks(F):
-        b = c01b(_Alias(ctx, rid), R, T)
-        c01c(_Alias(ctx, rid), R, T, b[3] if b and len(b) > 3 else None)
+    for T in hl.lock_types(F):
+        V = hl.View(F, R, T)
+        b = hl.rule_reader_order(ctx, rid, V)
+        hl.rule_release(ctx, rid, V, b[4] if b else None)
     c01g(_Alias(ctx, rid))
 
 
@@ -139,13 +94,9 @@ def rule_e(ctx):
     rid = "C18.e"
     ctx.rule(rid, "progress of the writer-side wait: every pass samples every reader slot (whole-array traversal, not under a short-circuiting "
                   "combinator), so a slot that was idle at some instant after the swap is eventually recorded", floor=4)
-    from .C01 import rule_e as c01e, rule_b as c01b
     R = Roles(F)
-    for T in halflocks(F):
-        readers = [m for m in hl_methods(F, T) if adt_constructions(m, RG)]
-        if len(readers) != 1:
-            raise AnchorLost("read() of HalfLock<%s>" % T)
-        c01e(_Alias(ctx, rid), R, T, readers[0])
+    for T in hl.lock_types(F):
+        hl.rule_covers_all(ctx, rid, hl.View(F, R, T))
 
 
 def run(ctx):
